@@ -422,8 +422,8 @@ def run_case(case: dict) -> dict:
     applied = [0, 0]
     for i, (op, side) in enumerate(zip(case["edits"], case["route"])):
         target, other = worlds[side], worlds[1 - side]
-        if op[0] == "meta_mutate" and not deep:
-            continue  # a shallow copy shares the objects stored in .meta by design
+        if op[0] == "meta_mutate" and not deep and op[2] % 5 not in (3, 4):
+            continue  # a shallow copy shares the objects stored in .meta by design (the store itself - its entries and their validity marks - is the copy's own)
         before = snapshot.snapshot(other, tensors=False)
         r = ops.apply_op(target, op)
         trace.append((side, op[0], r[0], r[1] if r[0] == "raise" else None))
